@@ -107,7 +107,7 @@ def main(argv=None):
     opts.setdefault("otimeout", 30.0 if args.tier == "quick" else 300.0)
     opts.setdefault("path_obligation_budget", 120.0 if args.tier == "quick" else 1500.0)
     max_paths = opts.pop("max_paths", 600 if args.tier == "quick" else 6000)
-    budget = opts.pop("budget_s", 200 if args.tier == "quick" else 2400)
+    budget = opts.pop("budget_s", 200 if args.tier == "quick" else 1200)
     res = explore.explore("harness." + prop, jobs, opts, workers=args.workers, max_paths=max_paths, budget_s=budget)
     known = load_known()
     from sx import report
